@@ -184,23 +184,38 @@ func runC13(c *Ctx) {
 			if okWrap {
 				_, okWrap = Match(Invoke("TypedPrototype.Type", proto), wr[0].X.Args[1])
 			}
-			rec := false
-			for _, lit := range tn.SSA.AnonFuncs {
-				if len(c.Calls(lit, Op("builtin", "recover"))) == 1 {
-					// stores toError(r) into the named error result under r != nil
-					instrs(lit, func(in ssa.Instruction) {
-						if st, ok := in.(*ssa.Store); ok {
-							if _, m := Match(Call("toError"), c.E(st.Val)); m {
-								rec = true
-							}
-						}
-					})
+			// the recovering routine: a deferred literal, or a deferred same-package function handed the address of the
+			// error result; it calls recover() and stores an error derived from the recovered value
+			recovers := func(f *ssa.Function) bool {
+				if f == nil || len(c.Calls(f, Op("builtin", "recover"))) != 1 {
+					return false
 				}
+				found := false
+				instrs(f, func(in ssa.Instruction) {
+					st, ok := in.(*ssa.Store)
+					if !ok || !isErrorType(st.Val.Type()) {
+						return
+					}
+					v := c.E(st.Val)
+					if _, m := Match(Somewhere(Op("builtin", "recover")), v); m && v.Op == "call" {
+						found = true
+					}
+				})
+				return found
 			}
-			deferred := false
+			rec, deferred := false, false
 			instrs(tn.SSA, func(in ssa.Instruction) {
-				if _, ok := in.(*ssa.Defer); ok {
-					deferred = true
+				d, ok := in.(*ssa.Defer)
+				if !ok {
+					return
+				}
+				deferred = true
+				if lit, isLit := unwrapV(d.Call.Value).(*ssa.MakeClosure); isLit {
+					if recovers(lit.Fn.(*ssa.Function)) {
+						rec = true
+					}
+				} else if f := d.Call.StaticCallee(); f != nil && f.Pkg == tn.SSA.Pkg && recovers(f) {
+					rec = true
 				}
 			})
 			c.Check(okWrap && rec && deferred, "C13.U4-tonode-total", tn.Name, tn.SSA.Pos(), "wraps with "+t.proto+".Type() under a deferred recover that turns a panic into the returned error", "ToNode does not wrap with its own prototype's type or lets bindnode panics escape")
